@@ -35,9 +35,9 @@ Record cop := mkOp {
 #[global] Instance eta_cop : Settable _ :=
   settable! mkOp <o_mid; o_kind; o_deadline; o_status; o_reply; o_items; o_taken; o_chan; o_rx; o_got; o_res; o_tmo; o_call>.
 
-Record fixes := mkFx { fix5 : bool; fix7 : bool; fix8 : bool; fix9 : bool; fix15 : bool; fix16 : bool; fix20 : bool; fix25 : bool }.
-Definition as_is := mkFx false false false false false false false false.
-Definition repaired := mkFx true true true true true true true true.
+Record fixes := mkFx { fix5 : bool; fix7 : bool; fix8 : bool; fix9 : bool; fix15 : bool; fix16 : bool; fix20 : bool; fix25 : bool; fix29 : bool }.
+Definition as_is := mkFx false false false false false false false false false.
+Definition repaired := mkFx true true true true true true true true true.
 
 Inductive dstatus := Running | EndedOk | EndedErr | EndedPanic.
 Record st := mkSt {
@@ -190,6 +190,9 @@ Definition step (s : st) (e : ev) : st :=
       | None =>
         match alookup (r_mid r) (rmap s) with
         | Some o =>
+          (* repair F29: an IntermediateResponse is not the result of a single-result operation: it is dropped and the operation keeps
+             waiting (as found, it was handed over as "the" result - unparsable for the caller - and the real result then matched nobody) *)
+          if fix29 (fx s) && (match r_kind r with RInter => true | _ => false end) then s0 <| processed ::= fun l => l ++ [(r, None)] |> else
           let alive := match getop s o with Some c => waiting c | None => false end in
           updop o (fill_reply (Some r)) s0 <| rmap ::= aremove (r_mid r) |> <| inuse ::= rem (r_mid r) |>
                 <| processed ::= fun l => l ++ [(r, if alive then Some o else None)] |>
@@ -310,12 +313,20 @@ Proof. vm_compute. repeat split. Qed.
    has come round: modelled by stepping [last] back - the stale scrub takes the reply sender of the operation that owns the id now *)
 (* F25: an operation issued through a stream's own handle; the stream, finished early, then has the driver scrub that operation's id and
    keeps its own - with every other repair in *)
-Definition all_but_25 := mkFx true true true true true true true false.
+Definition all_but_25 := mkFx true true true true true true true false true.
 Definition h25 := [Start (KSearch false) None; DrvOp; CliPoll 0; Start KSingle None; ViaHandle 0; DrvOp; ServerSend (mkResp 2 ROther 5); DrvResp; CliPoll 1; StreamFinish 0; DrvScrub].
 Lemma c13_refuted_F25 : c13 (run all_but_25 h25) = false /\ inuse (run all_but_25 h25) = [1] /\ map fst (smap (run all_but_25 h25)) = [1].
 Proof. vm_compute. repeat split. Qed.
 Lemma c13_repaired_F25 : c13 (run repaired h25) = true /\ inuse (run repaired h25) = [] /\ smap (run repaired h25) = [].
 Proof. vm_compute. repeat split. Qed.
+
+(* F29: an intermediate response, then the real result, for a single-result operation *)
+Definition all_but_29 := mkFx true true true true true true true true false.
+Definition h29 := [Start KSingle None; DrvOp; ServerSend (mkResp 1 RInter 4); ServerSend (mkResp 1 ROther 5); DrvResp; DrvResp; CliPoll 0].
+Lemma c01_refuted_F29 : option_map o_status (getop (run all_but_29 h29) 0%nat) = Some (COk (Some (mkResp 1 RInter 4))) /\ map snd (processed (run all_but_29 h29)) = [Some 0%nat; None].
+Proof. vm_compute. split; reflexivity. Qed.
+Lemma c01_repaired_F29 : option_map o_status (getop (run repaired h29) 0%nat) = Some (COk (Some (mkResp 1 ROther 5))) /\ map snd (processed (run repaired h29)) = [None; Some 0%nat].
+Proof. vm_compute. split; reflexivity. Qed.
 
 Lemma c12_refuted_F22 :
   let s0 := run repaired [Start (KSearch false) None; DrvOp; CliPoll 0; ServerSend (mkResp 1 RDone 1); DrvResp] in
